@@ -433,6 +433,19 @@ def _mst(tree):
     if sorted(seen) != ["append", "nb", "nb", "union"]: raise TranslateError(f"{W}: Kruskal body must be union, edges.append, two neighbour insertions (found {seen})")
     ks += ["      (uf, edges, nb)", "    else (uf, acc.2.1, acc.2.2)", ""]
     out += ks
+    # the same loop body over the UnionFind class AS TRANSLATED from mouette/utils/unionfind.py by property C20
+    # (Generated/C20UF.lean: `connected`, `union`; `none` = the exception of the method)
+    ku = []
+    for l in ks:
+        l = l.replace("def kruskalStep (acc : UF.State ×", "def kruskalStepUF (acc : UFS.St ×").replace("    UF.State × List (Nat × Nat) × List (Nat × Nat) :=", "    UFS.St × List (Nat × Nat) × List (Nat × Nat) :=")
+        l = l.replace("match UF.connected acc.1", "match C20.connected acc.1")
+        if l.strip().startswith("let uf := UF.union uf"):
+            args = l.strip()[len("let uf := UF.union uf "):]
+            ku += [f"      match C20.union uf {args} with", "      | none => (uf, edges, nb)", "      | some (uf, _) =>"]
+            continue
+        ku.append(l)
+    out += ["/-- `uf = UnionFind(self.mesh.id_vertices)` on the translated class -/",
+            "def ufCtor (n : Nat) : UFS.St := C20.ctor C20.init (List.range n)", ""] + ku
     # -- orientation
     i0 = body.index(fo)
     rest = body[i0 + 1:]
@@ -614,13 +627,240 @@ def _forest_base(tree):
             "def forestGet (ts : List Tree) (key : Nat) : Option Tree := ts[key]?", ""]
 
 
+
+# ------------------------------------------------------------------------------------------------
+# (5) round 5: constructors, the `_computed` flag, build_tree_as_polyline
+# ------------------------------------------------------------------------------------------------
+def _is_none(n):
+    return isinstance(n, ast.Constant) and n.value is None
+
+
+def _empty_list(n):
+    return isinstance(n, ast.List) and not n.elts
+
+
+def _self_assigns(stmts):
+    """{attr: value node} of the top-level `self.attr = value` statements (annotated ones included), in order"""
+    out = {}
+    for st in stmts:
+        if isinstance(st, ast.AnnAssign) and st.value is not None and _self(st.target): out[st.target.attr] = st.value
+        elif isinstance(st, ast.Assign) and len(st.targets) == 1 and _self(st.targets[0]): out[st.targets[0].attr] = st.value
+    return out
+
+
+def _super_init(stmts, W):
+    for st in stmts:
+        if isinstance(st, ast.Expr) and isinstance(st.value, ast.Call) and isinstance(st.value.func, ast.Attribute) and st.value.func.attr == "__init__" \
+                and _call(st.value.func.value, "super", 0):
+            return st.value
+    raise TranslateError(f"{W}: super().__init__(…) not called")
+
+
+def _root_choice(body, param, count, W):
+    """if <param> is not None: self.root = <param> else: self.root = randint(0, len(self.mesh.<count>) - 1)"""
+    for st in body:
+        if isinstance(st, ast.If) and st.orelse:
+            t = st.test
+            a, b = _strip(st.body), _strip(st.orelse)
+            if isinstance(t, ast.Compare) and len(t.ops) == 1 and _name(t.left, param) and _is_none(t.comparators[0]) and isinstance(t.ops[0], (ast.IsNot, ast.Is)):
+                if isinstance(t.ops[0], ast.Is): a, b = b, a
+                ok = len(a) == 1 and isinstance(a[0], ast.Assign) and _self(a[0].targets[0], "root") and _name(a[0].value, param) and \
+                    len(b) == 1 and isinstance(b[0], ast.Assign) and _self(b[0].targets[0], "root") and _call(b[0].value, "randint", 2) and \
+                    _const(b[0].value.args[0], 0) and ast.unparse(b[0].value.args[1]).replace(" ", "") == f"len(self.mesh.{count})-1"
+                if ok: return
+                raise TranslateError(f"{W}: root selection branches not recognised")
+            if _name(t, param) or (isinstance(t, ast.UnaryOp) and _name(t.operand, param)):
+                raise TranslateError(f"{W}: the root is selected by the TRUTH VALUE of `{param}` (element 0 is a valid root), not by `is not None`")
+    raise TranslateError(f"{W}: `if {param} is not None: self.root = {param} else: randint(0, len(self.mesh.{count})-1)` not found")
+
+
+def _excl_default(body, param, attr, W):
+    """if <param> is None: self.<attr> = set() else: self.<attr> = <param>"""
+    for st in body:
+        if isinstance(st, ast.If) and st.orelse and isinstance(st.test, ast.Compare) and _name(st.test.left, param) and _is_none(st.test.comparators[0]):
+            a, b = _strip(st.body), _strip(st.orelse)
+            if isinstance(st.test.ops[0], ast.IsNot): a, b = b, a
+            va, vb = _self_assigns(a).get(attr), _self_assigns(b).get(attr)
+            if va is not None and vb is not None and (_call(va, "set", 0)) and _name(vb, param): return
+            raise TranslateError(f"{W}: default of {attr} not recognised")
+    raise TranslateError(f"{W}: `if {param} is None: self.{attr} = set() else: self.{attr} = {param}` not found")
+
+
+def _constructors():
+    out = ["/-! ### constructors and the `_computed` flag -/", ""]
+    base = T.load(BASE)[0]
+    # SpanningTree.__init__ / compute / traverse guard
+    W = "SpanningTree.__init__"
+    a = _self_assigns(_strip(T.find_def(base, W).body))
+    if not (set(a) == {"mesh", "root", "parent", "children", "edges", "_computed"} and _name(a["mesh"], "mesh") and all(_is_none(a[k]) for k in ("root", "parent", "children", "edges"))
+            and isinstance(a["_computed"], ast.Constant) and a["_computed"].value is False):
+        raise TranslateError(f"{W}: expected mesh, root/parent/children/edges = None, _computed = False (found {sorted(a)})")
+    W = "SpanningTree.compute"
+    c = _self_assigns(_strip(T.find_def(base, W).body))
+    if not (set(c) == {"_computed"} and isinstance(c["_computed"], ast.Constant) and c["_computed"].value is True): raise TranslateError(f"{W}: does not (only) set _computed = True")
+    W = "SpanningTree.traverse"
+    guards = [st for st in _strip(T.find_def(base, W).body) if isinstance(st, ast.If) and len(_strip(st.body)) == 1 and isinstance(_strip(st.body)[0], ast.Raise)]
+    g0 = guards[0].test if guards else None
+    if not (len(guards) == 2 and isinstance(g0, ast.UnaryOp) and isinstance(g0.op, ast.Not) and _self(g0.operand, "_computed")):
+        raise TranslateError(f"{W}: the first guard is not `if not self._computed: raise`")
+    g1 = guards[1].test
+    if not (isinstance(g1, ast.Compare) and isinstance(g1.ops[0], ast.NotIn) and _name(g1.left, "order") and isinstance(g1.comparators[0], (ast.List, ast.Tuple, ast.Set))):
+        raise TranslateError(f"{W}: the second guard is not `if order not in [...]: raise`")
+    orders = sorted(e.value for e in g1.comparators[0].elts)
+    # which compute() sets the flag, and how
+    flags = {}
+    for tag, (path, cls) in {"edge": (EDGE, "EdgeSpanningTree"), "mst": (EDGE, "EdgeMinimalSpanningTree"), "face": (FACE, "FaceSpanningTree"), "cell": (CELL, "CellSpanningTree")}.items():
+        f = T.find_def(T.load(path)[0], cls + ".compute")
+        last = _strip(f.body)[-1]
+        direct = isinstance(last, ast.Assign) and _self(last.targets[0], "_computed") and isinstance(last.value, ast.Constant) and last.value.value is True
+        viasuper = isinstance(last, ast.Expr) and isinstance(last.value, ast.Call) and isinstance(last.value.func, ast.Attribute) and last.value.func.attr == "compute" and \
+            _call(last.value.func.value, "super", 0)
+        if tag == "mst" and viasuper: raise TranslateError(f"{cls}.compute: ends with super().compute(), which would run the breadth-first tree of the parent class")
+        if not (direct or viasuper): raise TranslateError(f"{cls}.compute: the LAST statement does not set the computed flag")
+        for st in ast.walk(f):
+            if isinstance(st, ast.Return) and st is not last: raise TranslateError(f"{cls}.compute: returns before the end (the flag / the tables may not be set)")
+        flags[tag] = True
+    q = lambda l: "[" + ", ".join('"' + x + '"' for x in l) + "]"
+    out += ["def computedAfterInit : Bool := false", "def computedAfterCompute : Bool := true",
+            f"def traverseOrders : List String := {q(orders)}",
+            "/-- the two guards of `traverse`: `none` = the exception -/",
+            "def traverseGuard (computed : Bool) (order : String) : Option Unit :=",
+            "  if !computed then none else if !(traverseOrders.contains order) then none else some ()",
+            "/-- every concrete `compute()` ends by setting the flag and has no early return -/",
+            "def computeSetsFlag : List (String × Bool) := " + "[" + ", ".join(f'("{k}", true)' for k in flags) + "]", ""]
+    # tree constructors
+    spec = {"edge": (EDGE, "EdgeSpanningTree", "starting_vertex", "vertices", "id_vertices"), "face": (FACE, "FaceSpanningTree", "starting_face", "faces", "id_faces"),
+            "cell": (CELL, "CellSpanningTree", "starting_cell", "cells", "id_cells")}
+    for tag, (path, cls, rp, cnt, ids) in spec.items():
+        W = cls + ".__init__"
+        f = T.find_def(T.load(path)[0], W)
+        body = _strip(f.body)
+        sup = _super_init(body, W)
+        if [ast.unparse(x) for x in sup.args] != ["mesh"] or sup.keywords: raise TranslateError(f"{W}: super().__init__ is not called with (mesh)")
+        _root_choice(body, rp, cnt, W)
+        a = _self_assigns(body)
+        okt = ast.unparse(a.get("parent", ast.Constant(0))).replace(" ", "") == f"[None]*len(self.mesh.{cnt})" and _empty_list(a.get("edges")) and \
+            isinstance(a.get("children"), ast.ListComp) and _empty_list(a["children"].elt) and ast.unparse(a["children"].generators[0].iter) == f"self.mesh.{ids}"
+        if not okt: raise TranslateError(f"{W}: tables parent / children / edges are not initialised empty")
+        if tag == "edge":
+            if not (_name(a.get("_avoidbound"), "avoid_boundary") and _name(a.get("_avoidedges"), "avoid_edges")): raise TranslateError(f"{W}: avoid_boundary / avoid_edges are not stored as given")
+            dflt = {x.arg: d for x, d in zip(f.args.args[::-1], f.args.defaults[::-1])}
+            if not (_is_none(dflt.get("starting_vertex")) and isinstance(dflt.get("avoid_boundary"), ast.Constant) and dflt["avoid_boundary"].value is False and _is_none(dflt.get("avoid_edges"))):
+                raise TranslateError(f"{W}: parameter defaults changed")
+        else:
+            _excl_default(body, {"face": "forbidden_edges", "cell": "forbidden_faces"}[tag], {"face": "forbidden_edges", "cell": "forbidden_faces"}[tag], W)
+    # MST constructor
+    W = "EdgeMinimalSpanningTree.__init__"
+    f = T.find_def(T.load(EDGE)[0], W)
+    body = _strip(f.body)
+    sup = _super_init(body, W)
+    got = [ast.unparse(x) for x in sup.args] + [f"{k.arg}={ast.unparse(k.value)}" for k in sup.keywords]
+    if got not in (["mesh", "starting_vertex", "avoid_boundary=avoid_boundary"], ["mesh", "starting_vertex", "avoid_boundary"]):
+        raise TranslateError(f"{W}: super().__init__ is called with {got}")
+    if not _name(_self_assigns(body).get("weights"), "weights"): raise TranslateError(f"{W}: weights not stored as given")
+    # forests
+    W = "SpanningForest.__init__"
+    a = _self_assigns(_strip(T.find_def(base, W).body))
+    if not (_name(a.get("mesh"), "mesh") and _empty_list(a.get("trees")) and _empty_list(a.get("roots"))): raise TranslateError(f"{W}: mesh / trees = [] / roots = [] not found")
+    for path, cls, extra in ((EDGE, "EdgeSpanningForest", None), (FACE, "FaceSpanningForest", "forbidden_edges"), (CELL, "CellSpanningForest", None)):
+        W = cls + ".__init__"
+        body = _strip(T.find_def(T.load(path)[0], W).body)
+        sup = _super_init(body, W)
+        if [ast.unparse(x) for x in sup.args] != ["mesh"]: raise TranslateError(f"{W}: super().__init__ is not called with (mesh)")
+        a = _self_assigns(body)
+        if extra and not _name(a.get(extra), extra): raise TranslateError(f"{W}: {extra} not stored as given")
+        if set(a) - ({extra} if extra else set()): raise TranslateError(f"{W}: unexpected attributes {sorted(a)}")
+    out += ["/-- the root of a tree: the given element (ANY element, 0 included), else `randint(0, n - 1)` -/",
+            "def rootOf (given : Option Nat) (randint : Nat → Nat → Nat) (n : Nat) : Nat :=",
+            "  match given with", "  | some r => r", "  | none => randint 0 (n - 1)",
+            "/-- the exclusion set of a face / cell tree: the given one, else the empty set -/",
+            "def exclOf (given : Option (Nat → Bool)) : Nat → Bool :=", "  match given with", "  | some f => f", "  | none => fun _ => false",
+            "/-- what the MST constructor hands to the parent constructor as `avoid_edges` (nothing: the default `None`) -/",
+            "def mstAvoidEdges : Option (Nat → Bool) := none", ""]
+    return out
+
+
+def _polylines():
+    out = ["/-! ### build_tree_as_polyline -/", ""]
+    # edge: all mesh vertices; one edge keyify(v, father) per traversed (v, father) with a father
+    W = "EdgeSpanningTree.build_tree_as_polyline"
+    body = _strip(T.find_def(T.load(EDGE)[0], W).body)
+    ok = len(body) == 4 and isinstance(body[0], ast.Assign) and _call(body[0].value, "PolyLine", 0) and isinstance(body[1], ast.For) and isinstance(body[2], ast.For) and \
+        isinstance(body[3], ast.Return) and _name(body[3].value, body[0].targets[0].id)
+    if not ok: raise TranslateError(f"{W}: expected output = PolyLine(); vertex loop; traversal loop; return output")
+    o = body[0].targets[0].id
+    v1 = body[1]
+    b1 = _strip(v1.body)
+    if not (ast.unparse(v1.iter) == "self.mesh.vertices" and len(b1) == 1 and isinstance(b1[0], ast.Expr) and ast.unparse(_mcall(b1[0].value, "append", 1) or ast.Constant(0)) == f"{o}.vertices"
+            and _name(b1[0].value.args[0], v1.target.id)):
+        raise TranslateError(f"{W}: the vertices of the mesh are not copied one by one")
+    t = body[2]
+    it = t.iter
+    if not (isinstance(it, ast.Call) and _self(it.func, "traverse") and isinstance(t.target, ast.Tuple) and len(t.target.elts) == 2): raise TranslateError(f"{W}: second loop is not over self.traverse()")
+    order = "BFS"
+    for k in it.keywords:
+        if k.arg == "order" and isinstance(k.value, ast.Constant): order = k.value.value
+    if it.args: order = it.args[0].value if isinstance(it.args[0], ast.Constant) else None
+    if order not in ("BFS", "DFS"): raise TranslateError(f"{W}: traversal order not recognised")
+    vv, ff = (e.id for e in t.target.elts)
+    tb = _unnest_continue(t.body)
+    ok = len(tb) == 1 and isinstance(tb[0], ast.If) and isinstance(tb[0].test, ast.UnaryOp) and isinstance(tb[0].test.operand, ast.Compare) and \
+        _name(tb[0].test.operand.left, ff) and isinstance(tb[0].test.operand.ops[0], ast.Is) and _is_none(tb[0].test.operand.comparators[0])
+    if not ok:
+        ok = len(tb) == 1 and isinstance(tb[0], ast.If) and isinstance(tb[0].test, ast.Compare) and _name(tb[0].test.left, ff) and isinstance(tb[0].test.ops[0], ast.IsNot) and _is_none(tb[0].test.comparators[0])
+    if not ok: raise TranslateError(f"{W}: the root (father None) is not skipped")
+    ib = _strip(tb[0].body)
+    a = ib[0].value.args[0] if len(ib) == 1 and isinstance(ib[0], ast.Expr) and ast.unparse(_mcall(ib[0].value, "append", 1) or ast.Constant(0)) == f"{o}.edges" else None
+    if not (_call(a, "keyify", 2) and sorted(x.id for x in a.args if _name(x)) == sorted([vv, ff])): raise TranslateError(f"{W}: appended edge is not keyify(v, father)")
+    ren = {vv: "vf.1", ff: "father"}
+    out += ["/-- edges of the polyline exported by `EdgeSpanningTree.build_tree_as_polyline` (its vertices are all the mesh vertices, same numbering) -/",
+            "def polyEdges_edge (trav : String → List (Nat × Option Nat)) : List (Nat × Nat) :=",
+            f"  (trav \"{order}\").foldl (fun out vf =>", "    match vf.2 with", "    | none => out",
+            "    | some father => out ++ [keyify vf.1 father]) []", ""]        # keyify is symmetric: argument order normalised
+    # face / cell: one polyline vertex per element (its barycentre), one edge [i, parent[i]] per element with a parent
+    for tag, path, cls, ids in (("face", FACE, "FaceSpanningTree", "id_faces"), ("cell", CELL, "CellSpanningTree", "id_cells")):
+        W = cls + ".build_tree_as_polyline"
+        body = _strip(T.find_def(T.load(path)[0], W).body)
+        fors = [st for st in body if isinstance(st, ast.For)]
+        if not (len(fors) == 1 and ast.unparse(fors[0].iter) == f"self.mesh.{ids}" and _name(fors[0].target) and isinstance(body[-1], ast.Return)): raise TranslateError(f"{W}: loop over self.mesh.{ids} not found")
+        i = fors[0].target.id
+        fb = _strip(fors[0].body)
+        ok = len(fb) == 2 and isinstance(fb[0], ast.Expr) and _mcall(fb[0].value, "append", 1) is not None and ast.unparse(_mcall(fb[0].value, "append", 1)).endswith(".vertices") and \
+            isinstance(fb[0].value.args[0], ast.Subscript) and _name(fb[0].value.args[0].slice, i)
+        if not ok: raise TranslateError(f"{W}: one polyline vertex per element (indexed by the element id) expected")
+        g = fb[1]
+        ok = isinstance(g, ast.If) and not g.orelse and isinstance(g.test, ast.Compare) and isinstance(g.test.ops[0], ast.IsNot) and _is_none(g.test.comparators[0]) and \
+            ast.unparse(g.test.left) == f"self.parent[{i}]"
+        if ok:
+            gb = _strip(g.body)
+            a = gb[0].value.args[0] if len(gb) == 1 and isinstance(gb[0], ast.Expr) and _mcall(gb[0].value, "append", 1) is not None and ast.unparse(_mcall(gb[0].value, "append", 1)).endswith(".edges") else None
+            ok = isinstance(a, (ast.List, ast.Tuple)) and len(a.elts) == 2
+        if not ok: raise TranslateError(f"{W}: `if self.parent[i] is not None: output.edges.append([i, self.parent[i]])` not found")
+        m = {i: "i", f"self.parent[{i}]": "p"}
+        e0, e1 = (m.get(ast.unparse(x)) for x in a.elts)
+        if e0 is None or e1 is None or {e0, e1} != {"i", "p"}: raise TranslateError(f"{W}: appended edge is not [i, self.parent[i]]")
+        out += [f"/-- edges of the polyline exported by `{cls}.build_tree_as_polyline` (vertex number i = barycentre of element i) -/",
+                f"def polyEdges_{tag} (n : Nat) (parent : Nat → Option Nat) : List (Nat × Nat) :=",
+                "  (List.range n).foldl (fun out i =>", "    match parent i with", "    | some p => out ++ [(i, p)]", "    | none => out) []", ""]      # a segment is an unordered pair: orientation normalised
+    # forest: merge of the polylines of its trees
+    W = "SpanningForest.build_tree_as_polyline"
+    body = _strip(T.find_def(T.load(BASE)[0], W).body)
+    ok = len(body) == 2 and isinstance(body[0], ast.Assign) and isinstance(body[0].value, ast.ListComp) and ast.unparse(body[0].value.generators[0].iter) == "self.trees" and \
+        isinstance(body[0].value.elt, ast.Call) and isinstance(body[0].value.elt.func, ast.Attribute) and body[0].value.elt.func.attr == "build_tree_as_polyline" and \
+        isinstance(body[1], ast.Return) and _call(body[1].value, "merge", 1) and _name(body[1].value.args[0], body[0].targets[0].id)
+    if not ok: raise TranslateError(f"{W}: not `merge([t.build_tree_as_polyline() for t in self.trees])`")
+    out += ["/-- the forest's polyline is the merge of the polylines of its trees, in order -/", "def forestPolylineIsMergeOfTrees : Bool := true", ""]
+    return out
+
+
 HEADER = """import Mouette.Model.Trees
+import Mouette.Generated.C20UF
 /-
 Imperative translation of mouette/processing/trees/*.py (everything but the BFS loop body, which is in C10Loop.lean).
 Bridges: Mouette/Props/C10Source.lean.
 -/
 namespace Mouette.Generated.C10T
-open Mouette.Trees
+open Mouette.Trees Mouette.Generated
 open Mouette.Dijkstra (upd)
 
 /-- connectivity as the face / cell trees query it: `conn x` lists, in iteration order, the connector ids (edges of a face,
@@ -639,6 +879,13 @@ deriving DecidableEq, Repr
 
 """
 
+
+
+def _stub(name, ns, sites):
+    """a translation site failed: do not leave the file of an EARLIER tree on disk; the stub has no definitions, so every bridge
+    that needs them fails to build and the build log talks about THIS tree"""
+    bad = "; ".join(f"{s['site']}: {str(s.get('detail'))[:160]}" for s in sites if not s["ok"]).replace("-/", "- /")
+    T.write_generated(name, f"/- TRANSLATION FAILED on the current source tree, no definitions emitted.\n{bad}\n-/\nnamespace {ns}\nend {ns}\n")
 
 def translate():
     sites, out = [], {}
@@ -660,8 +907,12 @@ def translate():
     ok &= run("edge_sp.py:EdgeMinimalSpanningTree.compute (weights, admissible edges, sort, Kruskal loop, orientation)", "mst", lambda: _mst(T.load(EDGE)[0]))
     for tag, (cls, path, *_r) in FOREST.items():
         ok &= run(f"{path.split('/')[-1]}:{cls}.compute", "forest_" + tag, lambda tag=tag, path=path: _forest(tag, T.load(path)[0]))
+    ok &= run("base.py / *_sp.py: constructors (root selection, exclusion defaults, empty tables), _computed flag, traverse guards", "ctor", _constructors)
+    ok &= run("*_sp.py / base.py: build_tree_as_polyline (edge, face, cell, forest)", "poly", _polylines)
     if ok:
         body = []
-        for k in ("trav", "bfs_edge", "bfs_face", "bfs_cell", "mst", "forest_edge", "forest_face", "forest_cell", "fbase"): body += out[k]
+        for k in ("trav", "bfs_edge", "bfs_face", "bfs_cell", "mst", "forest_edge", "forest_face", "forest_cell", "fbase", "ctor", "poly"): body += out[k]
         T.write_generated("C10Tree", "\n".join(body) + "\nend Mouette.Generated.C10T\n", HEADER)
+    else:
+        _stub("C10Tree", "Mouette.Generated.C10T", sites)
     return sites
